@@ -34,6 +34,7 @@
 //   * PPPoE: nothing is added after End-Of-List (RFC 2516); RTP: at most 15 CSRC identifiers (4-bit CC), padding
 //     1..255 octets; the extension profile is only set while the X bit is set (else it is not on the wire);
 //   * DNS names: 0..4 labels of 1..63 letters/digits/hyphens (what a domain name can hold).
+#pragma GCC optimize("O0")      // the monitor is mostly table-building lambdas: optimising them only costs build time (libtins itself is built -O1)
 #include <tins/icmp.h>
 #include <tins/icmpv6.h>
 #include <tins/icmp_extension.h>
@@ -156,7 +157,7 @@ template <class O> void run_kind(const Kind<O>& K, Rng& r) {
     std::shared_ptr<O> o = K.make(r, cfg, sh);
     const int ctx = (int)r.below(K.contexts);
     std::string prog = "msgs " + KN + "{" + cfg + (K.contexts > 1 ? " ctx=" + std::to_string(ctx) : "") + "}:"; describe_case(prog);
-    for (auto& f : K.fields) if (f.get && !f.expect) sh[f.name] = f.get(*o);          // full getter snapshot of the fresh message
+    for (auto& f : K.fields) if (f.get && (!f.expect || f.gen) && !sh.count(f.name)) sh[f.name] = f.get(*o);          // full getter snapshot of the fresh message
     std::vector<const Field<O>*> settable; for (auto& f : K.fields) if (f.gen) settable.push_back(&f);
     std::vector<std::string> order; std::set<std::string> done;
     const u32 steps = 1 + r.below(K.max_steps);
@@ -197,7 +198,7 @@ template <class O> void run_kind(const Kind<O>& K, Rng& r) {
             for (auto& g : im.regs) {
                 if (!g.care) continue;
                 if (!std::equal(im.b.begin() + g.off, im.b.begin() + g.off + g.len, y.begin() + off + g.off)) {
-                    violation("wire-layout/" + KN + "/" + g.name, "octets " + std::to_string(g.off) + ".." + std::to_string(g.off + g.len - 1) + " of the layer are " + hex(y.data() + off + g.off, g.len, 40) + ", the format puts " + g.name + "=" + hex(im.b.data() + g.off, g.len, 40) + " there; layer=" + hex(y.data() + off, y.size() - off, 80) + " :: " + prog); return; }
+                    violation("wire-layout/" + KN + "/" + g.name, "octets " + std::to_string(g.off) + ".." + std::to_string(g.off + g.len - 1) + " of the layer are " + hex(y.data() + off + g.off, g.len, 40) + ", the format puts " + g.name + "=" + hex(im.b.data() + g.off, g.len, 40) + " there; layer=" + hex(y.data() + off, y.size() - off, 80) + " :: " + prog); break; }      // reported once; the round trip below is still checked
                 cnt("msgs:offset_checks");
             }
         }
@@ -753,7 +754,9 @@ void dot11_head(Image& im, const Shadow& sh, u8 fc0, u64 fc1_extra) {
 }
 template <class O> Kind<O> dot11_mgmt_kind(const char* cls, u8 fc0) {
     Kind<O> K; K.cls = cls; K.kind = "elements"; K.contexts = 2; K.ser = ser_self<O>; K.parse = dot11_parse<O>;
-    K.make = [](Rng& r, std::string& cfg, Shadow& sh) { std::shared_ptr<O> o; if (r.chance(1, 2)) { o = std::make_shared<O>(); cfg = "default"; } else { Bytes d = gen_octets(r, 6), s = gen_octets(r, 6); o = std::make_shared<O>(hw6(d), hw6(s)); cfg = "dst=" + hex(d) + " src=" + hex(s); } sh["addr4"] = B(Bytes(6, 0)); return o; };
+    K.make = [](Rng& r, std::string& cfg, Shadow& sh) { std::shared_ptr<O> o; if (r.chance(1, 2)) { o = std::make_shared<O>(); cfg = "default"; } else { Bytes d = gen_octets(r, 6), s = gen_octets(r, 6); o = std::make_shared<O>(hw6(d), hw6(s)); cfg = "dst=" + hex(d) + " src=" + hex(s); }
+        if (r.chance(1, 2)) { o->to_ds(1); o->from_ds(1); cfg += " ToDS=FromDS=1"; }       // the state in which Address 4 exists
+        return o; };
     dot11_common_fields(K);
     K.fields.push_back(NUMF(O, timestamp, 64, uint64_t)); K.fields.push_back(NUMF(O, interval, 16, uint16_t));
     auto pairf = [](const char* name, void (Dot11ManagementFrame::*set)(uint8_t, uint8_t), std::pair<uint8_t, uint8_t> (Dot11ManagementFrame::*get)() const) {
@@ -774,7 +777,9 @@ template <class O> Kind<O> dot11_mgmt_kind(const char* cls, u8 fc0) {
 Kind<Dot11Data> dot11_data_kind() {
     typedef Dot11Data O;
     Kind<O> K; K.cls = "Dot11Data"; K.kind = "addr4"; K.contexts = 2; K.ser = ser_self<O>; K.parse = dot11_parse<O>;
-    K.make = [](Rng& r, std::string& cfg, Shadow& sh) { std::shared_ptr<O> o; if (r.chance(1, 2)) { o = std::make_shared<O>(); cfg = "default"; } else { Bytes d = gen_octets(r, 6), s = gen_octets(r, 6); o = std::make_shared<O>(hw6(d), hw6(s)); cfg = "dst=" + hex(d) + " src=" + hex(s); } sh["addr4"] = B(Bytes(6, 0)); return o; };
+    K.make = [](Rng& r, std::string& cfg, Shadow& sh) { std::shared_ptr<O> o; if (r.chance(1, 2)) { o = std::make_shared<O>(); cfg = "default"; } else { Bytes d = gen_octets(r, 6), s = gen_octets(r, 6); o = std::make_shared<O>(hw6(d), hw6(s)); cfg = "dst=" + hex(d) + " src=" + hex(s); }
+        if (r.chance(1, 2)) { o->to_ds(1); o->from_ds(1); cfg += " ToDS=FromDS=1"; }       // the state in which Address 4 exists
+        return o; };
     dot11_common_fields(K);
     { Field<O> f = NUMF(O, wep, 1, small_uint<1>); f.refuse = [](const Shadow& sh, const Val& v) -> const char* { return !v.n && !oct(sh, "payload").empty() ? "Dot11Data-unprotected-payload-must-be-SNAP" : nullptr; }; K.fields.push_back(f); }
     { Field<O> f = payload_field<O>(40); f.refuse = [](const Shadow& sh, const Val& v) -> const char* { return !num(sh, "wep") && !v.b.empty() ? "Dot11Data-unprotected-payload-must-be-SNAP" : nullptr; }; K.fields.push_back(f); }
